@@ -18,6 +18,7 @@ CHECKS = {
     "C03": ("c03", {}),
     "C11": ("c11", {}),
     "C05": ("c05", {}),
+    "C06": ("c06", {}),
 }
 
 
